@@ -11,7 +11,7 @@ Import ListNotations.
 Close Scope N_scope.
 Open Scope nat_scope.
 
-Notation dwf_wb := (wf_wb token tok_class).
+Notation dwf_wb := (wf_wb token tok_class t_text tok_num).
 Notation derase_wb := (erase_wb token tok_class t_text tok_num ty_name).
 
 (* ---- type names ---- *)
@@ -46,7 +46,9 @@ Definition const_ok (l : sleaf) : Prop :=
   | LfInt true _ => False                  (* written '- 5': the recorded gap *)
   | LfBool _ | LfStr _ => True
   | LfName _ => False                      (* no constant *)
-  | LfReal _ _ _ | LfTInt _ _ _ | LfBits _ _ => False      (* not among the spelled constants of declarations (yet) *)
+  | LfTInt k _ v => fam k = TfInt /\ (v < two128)%N
+  | LfBits k v => fam k = TfBits /\ (v < two128)%N
+  | LfReal _ _ _ => False                  (* written by f64's Display: not modelled *)
   end.
 Definition init_ok (c : dclass) (i : dinit) : Prop :=
   match c with
@@ -65,16 +67,20 @@ Definition ditem_ok (d : ditem) : Prop :=
   | DEdge _ _ q => qual_ok DcInput q = true
   end.
 
-Lemma const_sp_spec l : const_ok l -> wf_c token tok_class (const_sp l) /\ erase_c token t_text tok_num (const_sp l) = l.
+Lemma const_sp_spec l : const_ok l -> wf_c token tok_class t_text tok_num (const_sp l) /\ erase_c token t_text tok_num (const_sp l) = l.
 Proof.
   destruct l as [[|] v|b|c|ty sg lit|k neg v|k v|n]; cbn [const_ok]; try contradiction.
   - intro Hv. destruct (int_tok_ok v Hv) as (Hc & Hn). cbn [const_sp wf_c erase_c]. split; [exact Hc|]. unfold leaf_of. rewrite Hn. reflexivity.
   - intros _. cbn [const_sp wf_c erase_c]. split; [|reflexivity]. destruct b; repeat split; reflexivity.
   - intros _. cbn [const_sp wf_c erase_c]. split; [apply str_tok_class | apply str_tok_leaf].
+  - intros (Hf & Hv). destruct (int_tok_ok v Hv) as (Hc & Hn). cbn [const_sp wf_c erase_c]. split; [|reflexivity].
+    split; [apply tykw_tok_class|]. split; [reflexivity|]. unfold typed_leaf. rewrite Hf, Hc, Hn. destruct neg; [split; reflexivity | reflexivity].
+  - intros (Hf & Hv). destruct (int_tok_ok v Hv) as (Hc & Hn). cbn [const_sp wf_c erase_c]. split; [|reflexivity].
+    split; [apply tykw_tok_class|]. split; [reflexivity|]. unfold typed_leaf. rewrite Hf, Hc, Hn. reflexivity.
 Qed.
 
 Lemma spec_sp_spec c i : c <> DcInOut -> c <> DcExternal -> init_ok c i ->
-  wf_sp token tok_class (spec_sp i) /\ erase_sp token t_text tok_num ty_name (spec_sp i) = i.
+  wf_sp token tok_class t_text tok_num (spec_sp i) /\ erase_sp token t_text tok_num ty_name (spec_sp i) = i.
 Proof.
   intros H1 H2 Hi. assert (Hi' : match i with
          | DSimple ty None => is_elem ty = true
@@ -101,7 +107,7 @@ Definition item_class (d : ditem) : dclass := match d with DVar _ c _ _ => c | D
 Definition item_qual (d : ditem) : dqual := match d with DVar _ _ q _ => q | DEdge _ _ q => q end.
 
 Lemma decl_sp_spec d : ditem_ok d ->
-  wf_d token tok_class (item_class d) (decl_sp d) /\
+  wf_d token tok_class t_text tok_num (item_class d) (decl_sp d) /\
   map (set_qual (item_qual d)) (erase_d token tok_class t_text tok_num ty_name (item_class d) (decl_sp d)) = [d].
 Proof.
   destruct d as [n c q i|n rising q]; cbn [ditem_ok item_class item_qual].
